@@ -46,10 +46,10 @@ func (o *vC17eObs) AddrsFor(l ma.Multiaddr) []ma.Multiaddr {
 	}
 	return r
 }
-func (o *vC17eObs) Addrs(minObservers int) []ma.Multiaddr { return nil }
+func (o *vC17eObs) Addrs(minObservers int) []ma.Multiaddr           { return nil }
 func (o *vC17eObs) Record(conn network.Conn, observed ma.Multiaddr) {}
-func (o *vC17eObs) Start(n network.Network)                          {}
-func (o *vC17eObs) Close() error                                     { return nil }
+func (o *vC17eObs) Start(n network.Network)                         {}
+func (o *vC17eObs) Close() error                                    { return nil }
 
 func VerifC17eHostObservedAddrs() {
 	specific := vC17eParse("/ip4/10.1.1.1/tcp/4001")
